@@ -2,7 +2,9 @@
  * Contracts on the real Datatype::create_contiguous / create_vector / create_hvector / create_indexed / create_hindexed /
  * create_resized (extracted by cxx2c into gen.c). MPI-3.1 4.1: for a type built from blocks (disp_i, bl_i) of an old type
  * with lower bound lb_o, upper bound ub_o, extent ex = ub_o - lb_o:   size = sum bl_i * size_o,
- *   lb = min_i (disp_i + lb_o),   ub = max_i (disp_i + (bl_i - 1) * ex + ub_o)   over the non-empty blocks; 0,0 if none. */
+ *   lb = min_i (disp_i + lb_o),   ub = max_i (disp_i + (bl_i - 1) * ex + ub_o)   over the non-empty blocks; 0,0 if none.
+ * Second part (further down): byte-exact transfer of Type_Hindexed / Type_Hvector / Type_Struct ::serialize / unserialize,
+ * observed through a ghost log of the leaf transfers (memcpy, nested (un)serialize, Op::apply).                        */
 #include "gen.h"
 
 #define SUCCESS 0
@@ -189,7 +191,234 @@ int Datatype__create_hindexed(int count, int* block_lengths, long* indices, stru
     __CPROVER_ensures(ON_RESULT(HX_UB))
     /*@ hindexed_ub_is_max_over_blocks_of_last_element_ub */;
 
+/* ==================== serialize / unserialize (byte-exact transfer part of the property) =============================
+ * Type_Hindexed::serialize / unserialize (inherited by Type_Indexed), Type_Hvector::serialize / unserialize (inherited by
+ * Type_Vector). MPI-3.1 4.1 / 4.2: `count` copies of the type, copy c placed c * extent(type) after copy 0; inside a copy,
+ * block k holds bl_k elements of the old type at byte displacement disp_k; the contiguous side receives the blocks in
+ * order, without gaps.
+ * The leaf transfers are NOT executed: memcpy (old type basic), Datatype::serialize / unserialize (old type derived) and
+ * Op::apply (unserialize, old type basic) are STUBS that log the transfer. For ONE contiguous byte g_D chosen by ghost
+ * parameters (copy g_c, block g_k, byte g_b of the block) the log records how many transfers cover it and from / to which
+ * noncontiguous offset; the contract states: exactly one transfer covers it, and it pairs it with noncontiguous offset
+ *     g_c * extent + disp[g_k] + g_b.
+ * Tiny but SYMBOLIC sizes: block_count 1..SBC(3), count 0..SCNT(2), block lengths 0..SBL (EMPTY BLOCKS INCLUDED),
+ * displacements 0..SDISP, old type of size/extent 1..SV; loops closed by complete unwinding for those bounds.          */
+#define SBC 3
+#define SCNT 2
+#ifndef SBL
+#define SBL 2
+#endif
+#ifndef SDISP
+#define SDISP 16
+#endif
+#ifndef SV
+#define SV 4
+#endif
+#define NCB 256
+#define CTB 128
+char g_nbuf[NCB]; /* the noncontiguous (user) buffer: never dereferenced, only offsets into it are observed */
+char g_cbuf[CTB]; /* the contiguous (packed) buffer */
+struct Type_Hindexed g_hx;
+struct Type_Hvector g_hv;
+struct Op g_op;
+int g_sbl[SBC];   /* block lengths of g_hx */
+long g_sdisp[SBC]; /* byte displacements of g_hx */
+/* ghost parameters: copy, block, byte inside the block; g_D = the contiguous byte they designate */
+int g_c, g_k;
+unsigned long g_b, g_D;
+/* transfer log (written by the stubs) */
+int g_hits;            /* transfers covering contiguous byte g_D */
+unsigned long g_nc_off; /* noncontiguous offset handed to the covering transfer */
+unsigned long g_rel;   /* position of g_D inside the covering transfer */
+int g_kind, g_cnt;     /* 1 = memcpy / Op::apply on a basic old type, 2 = nested (un)serialize of a derived old type; its count */
+unsigned long g_total; /* contiguous bytes transferred so far */
+_Bool g_bad;           /* a transfer did not start where the previous one ended, or used a foreign buffer */
+#define LOG_FRAME g_hits, g_nc_off, g_rel, g_kind, g_cnt, g_total, g_bad
+
+static void vf_xfer(const void* ct, const void* nc, unsigned long nbytes, int kind, int cnt)
+{
+  unsigned long ct_off = (unsigned long)__CPROVER_POINTER_OFFSET(ct);
+  if (!__CPROVER_same_object(ct, g_cbuf) || !__CPROVER_same_object(nc, g_nbuf) || ct_off != g_total)
+    g_bad = 1;
+  if (ct_off <= g_D && g_D - ct_off < nbytes) {
+    g_hits++;
+    g_nc_off = (unsigned long)__CPROVER_POINTER_OFFSET(nc);
+    g_rel    = g_D - ct_off;
+    g_kind   = kind;
+    g_cnt    = cnt;
+  }
+  g_total += nbytes;
+}
+/* STUBS (assumed): the leaves of the transfer */
+void* vf_memcpy_log(void* dst, const void* src, unsigned long n)
+{
+  vf_xfer(dst, src, n, 1, 0);
+  return dst;
+}
+void Datatype__serialize(struct Datatype* self, void* noncontiguous_buf, void* contiguous_buf, int count)
+{
+  vf_xfer(contiguous_buf, noncontiguous_buf, (unsigned long)count * self->size_, 2, count);
+}
+void Datatype__unserialize(struct Datatype* self, void* contiguous_buf, void* noncontiguous_buf, int count, struct Op* op)
+{
+  vf_xfer(contiguous_buf, noncontiguous_buf, (unsigned long)count * self->size_, 2, count);
+}
+void Op__apply(struct Op* self, void* invec, void* inoutvec, int* len, struct Datatype* datatype)
+{
+  vf_xfer(invec, inoutvec, (unsigned long)*len * datatype->size_, 1, 0);
+}
+
+/* the old type of the serialize harnesses: small, lb <= ub; basic types have lb 0 and extent = size */
+#define SWF_OLD (g_old.flags_ >= 0 && 1 <= g_old.size_ && g_old.size_ <= SV && 0 <= LB_O && LB_O <= SV && LB_O < UB_O && UB_O <= LB_O + 2 * SV && (OLD_DERIVED || (LB_O == 0 && UB_O == SZ_O)))
+/* the type itself carries the MPI extent of its layout (what a correct constructor stores): ub - lb == ext */
+#define SELF_EXT(d, ext) (0 <= (d).lb_ && (d).lb_ <= 4 * SDISP && (d).ub_ == (d).lb_ + (ext))
+#define LOG_EMPTY (g_hits == 0 && g_total == 0 && !g_bad && g_nc_off == 0 && g_rel == 0 && g_kind == 0 && g_cnt == 0)
+
+/* ---- hindexed ---- */
+#define HS_BC (g_hx.block_count_)
+#define HS_BSZ(k) ((unsigned long)g_sbl[k] * g_old.size_)  /* contiguous bytes of block k */
+#define HS_BEXT(k) ((long)g_sbl[k] * (UB_O - LB_O))         /* span of block k in the noncontiguous buffer */
+#define HS_COPYSZ (HS_BSZ(0) + (1 < HS_BC ? HS_BSZ(1) : 0) + (2 < HS_BC ? HS_BSZ(2) : 0))
+#define HS_PREF(k) (((k) > 0 ? HS_BSZ(0) : 0) + ((k) > 1 ? HS_BSZ(1) : 0))
+#define HS_BLK_OK(k) (0 <= g_sbl[k] && g_sbl[k] <= SBL && 0 <= g_sdisp[k] && g_sdisp[k] <= SDISP)
+#define HS_PRE                                                                                                         \
+  (vf_exc == 0 && self == &g_hx && g_hx.block_indices_ == g_sdisp && g_hx.block_lengths_ == g_sbl && g_hx.old_type_ == &g_old &&   \
+   1 <= HS_BC && HS_BC <= SBC && 0 <= count && count <= SCNT && HS_BLK_OK(0) && HS_BLK_OK(1) && HS_BLK_OK(2) && SWF_OLD && SELF_EXT(g_hx.__b_Datatype, HS_EXTENT) && LOG_EMPTY)
+/* the ghost byte: copy g_c, block g_k, byte g_b of that block */
+#define HS_GHOST                                                                                                       \
+  (0 <= g_c && g_c < count && 0 <= g_k && g_k < HS_BC && g_b < HS_BSZ(g_k) && g_D == (g_c == 1 ? HS_COPYSZ : 0) + HS_PREF(g_k) + g_b)
+/* MPI extent of the type: over the NON-EMPTY blocks, max (disp + bl * extent(old)) - min disp */
+#define HS_HAS(k) ((k) < HS_BC && g_sbl[k] > 0)
+#define HS_END(k) (g_sdisp[k] + HS_BEXT(k))
+#define HS_IS_MIN(k) (HS_HAS(k) && (!HS_HAS(0) || g_sdisp[k] <= g_sdisp[0]) && (!HS_HAS(1) || g_sdisp[k] <= g_sdisp[1]) && (!HS_HAS(2) || g_sdisp[k] <= g_sdisp[2]))
+#define HS_IS_MAX(k) (HS_HAS(k) && (!HS_HAS(0) || HS_END(k) >= HS_END(0)) && (!HS_HAS(1) || HS_END(k) >= HS_END(1)) && (!HS_HAS(2) || HS_END(k) >= HS_END(2)))
+#define HS_MIN (HS_IS_MIN(0) ? g_sdisp[0] : HS_IS_MIN(1) ? g_sdisp[1] : g_sdisp[2])
+#define HS_MAX (HS_IS_MAX(0) ? HS_END(0) : HS_IS_MAX(1) ? HS_END(1) : HS_END(2))
+#define HS_EXTENT (HS_MAX - HS_MIN)
+#define HS_NCPOS(ext) (g_nc_off + (g_kind == 1 ? g_rel : 0) == (unsigned long)((g_c == 1 ? (ext) : 0) + g_sdisp[g_k]) + (g_kind == 1 ? g_b : 0))
+#define HS_KIND (g_kind == (OLD_DERIVED ? 2 : 1) && (g_kind == 1 || (g_cnt == g_sbl[g_k] && g_rel == g_b)))
+
+void Type_Hindexed__serialize(struct Type_Hindexed* self, void* noncontiguous_buf, void* contiguous_buf, int count)
+    __CPROVER_requires(HS_PRE && noncontiguous_buf == g_nbuf && contiguous_buf == g_cbuf && HS_GHOST)
+    __CPROVER_assigns(LOG_FRAME)
+    __CPROVER_ensures(vf_exc == 0)
+    __CPROVER_ensures(g_hits == 1 && HS_KIND)
+    /*@ hindexed_serialize_every_packed_byte_is_written_exactly_once_by_the_transfer_of_its_block */
+    __CPROVER_ensures(!g_bad && g_total == (count >= 1 ? HS_COPYSZ : 0) + (count >= 2 ? HS_COPYSZ : 0))
+    /*@ hindexed_serialize_fills_the_packed_buffer_in_order_without_gaps */
+    __CPROVER_ensures(g_c != 0 || HS_NCPOS(0))
+    /*@ hindexed_serialize_first_copy_takes_each_block_at_its_displacement */
+    __CPROVER_ensures(HS_NCPOS(HS_EXTENT))
+    /*@ hindexed_serialize_copy_c_lies_c_extents_after_copy_0 */;
+
+void Type_Hindexed__unserialize(struct Type_Hindexed* self, void* contiguous_buf, void* noncontiguous_buf, int count, struct Op* op)
+    __CPROVER_requires(HS_PRE && noncontiguous_buf == g_nbuf && contiguous_buf == g_cbuf && op == &g_op && HS_GHOST)
+    __CPROVER_assigns(LOG_FRAME)
+    __CPROVER_ensures(vf_exc == 0)
+    __CPROVER_ensures(g_hits == 1 && HS_KIND)
+    /*@ hindexed_unserialize_every_packed_byte_is_consumed_exactly_once_by_the_transfer_of_its_block */
+    __CPROVER_ensures(!g_bad && g_total == (count >= 1 ? HS_COPYSZ : 0) + (count >= 2 ? HS_COPYSZ : 0))
+    /*@ hindexed_unserialize_consumes_the_packed_buffer_in_order_without_gaps */
+    __CPROVER_ensures(g_c != 0 || HS_NCPOS(0))
+    /*@ hindexed_unserialize_first_copy_puts_each_block_at_its_displacement */
+    __CPROVER_ensures(HS_NCPOS(HS_EXTENT))
+    /*@ hindexed_unserialize_copy_c_lies_c_extents_after_copy_0 */;
+
+/* ---- hvector: block_count blocks of block_length elements, block k at k * stride bytes ---- */
+#define VS_BC (g_hv.block_count_)
+#define VS_BL (g_hv.block_length_)
+#define VS_ST (g_hv.block_stride_)
+#define VS_BSZ ((unsigned long)VS_BL * g_old.size_)
+#define VS_BEXT ((long)VS_BL * (UB_O - LB_O))
+#define VS_COPYSZ (VS_BSZ + (1 < VS_BC ? VS_BSZ : 0) + (2 < VS_BC ? VS_BSZ : 0))
+#define VS_PREF(k) (((k) > 0 ? VS_BSZ : 0) + ((k) > 1 ? VS_BSZ : 0))
+#define VS_DISP(k) (((k) > 0 ? VS_ST : 0) + ((k) > 1 ? VS_ST : 0))
+#define VS_PRE                                                                                                         \
+  (vf_exc == 0 && self == &g_hv && g_hv.old_type_ == &g_old && 1 <= VS_BC && VS_BC <= SBC && 0 <= count && count <= SCNT &&     \
+   0 <= VS_BL && VS_BL <= SBL && 0 <= VS_ST && VS_ST <= SDISP && SWF_OLD && SELF_EXT(g_hv.__b_Datatype, VS_EXTENT) && LOG_EMPTY)
+#define VS_GHOST                                                                                                       \
+  (0 <= g_c && g_c < count && 0 <= g_k && g_k < VS_BC && g_b < VS_BSZ && g_D == (g_c == 1 ? VS_COPYSZ : 0) + VS_PREF(g_k) + g_b)
+/* MPI extent (stride >= 0, block_length > 0 since g_b < VS_BSZ): end of the last block */
+#define VS_EXTENT (VS_DISP(VS_BC - 1) + VS_BEXT)
+#define VS_NCPOS(ext) (g_nc_off + (g_kind == 1 ? g_rel : 0) == (unsigned long)((g_c == 1 ? (ext) : 0) + VS_DISP(g_k)) + (g_kind == 1 ? g_b : 0))
+#define VS_KIND (g_kind == (OLD_DERIVED ? 2 : 1) && (g_kind == 1 || (g_cnt == VS_BL && g_rel == g_b)))
+void Type_Hvector__serialize(struct Type_Hvector* self, void* noncontiguous_buf, void* contiguous_buf, int count)
+    __CPROVER_requires(VS_PRE && noncontiguous_buf == g_nbuf && contiguous_buf == g_cbuf && VS_GHOST)
+    __CPROVER_assigns(LOG_FRAME)
+    __CPROVER_ensures(vf_exc == 0)
+    __CPROVER_ensures(g_hits == 1 && VS_KIND)
+    /*@ hvector_serialize_every_packed_byte_is_written_exactly_once_by_the_transfer_of_its_block */
+    __CPROVER_ensures(!g_bad && g_total == (count >= 1 ? VS_COPYSZ : 0) + (count >= 2 ? VS_COPYSZ : 0))
+    /*@ hvector_serialize_fills_the_packed_buffer_in_order_without_gaps */
+    __CPROVER_ensures(g_c != 0 || VS_NCPOS(0))
+    /*@ hvector_serialize_first_copy_takes_block_k_at_k_strides */
+    __CPROVER_ensures(VS_NCPOS(VS_EXTENT))
+    /*@ hvector_serialize_copy_c_lies_c_extents_after_copy_0 */;
+
+void Type_Hvector__unserialize(struct Type_Hvector* self, void* contiguous_buf, void* noncontiguous_buf, int count, struct Op* op)
+    __CPROVER_requires(VS_PRE && noncontiguous_buf == g_nbuf && contiguous_buf == g_cbuf && op == &g_op && VS_GHOST)
+    __CPROVER_assigns(LOG_FRAME)
+    __CPROVER_ensures(vf_exc == 0)
+    __CPROVER_ensures(g_hits == 1 && VS_KIND)
+    /*@ hvector_unserialize_every_packed_byte_is_consumed_exactly_once_by_the_transfer_of_its_block */
+    __CPROVER_ensures(!g_bad && g_total == (count >= 1 ? VS_COPYSZ : 0) + (count >= 2 ? VS_COPYSZ : 0))
+    /*@ hvector_unserialize_consumes_the_packed_buffer_in_order_without_gaps */
+    __CPROVER_ensures(g_c != 0 || VS_NCPOS(0))
+    /*@ hvector_unserialize_first_copy_puts_block_k_at_k_strides */
+    __CPROVER_ensures(VS_NCPOS(VS_EXTENT))
+    /*@ hvector_unserialize_copy_c_lies_c_extents_after_copy_0 */;
+
+/* ---- struct: block k holds bl_k elements of ITS OWN old type at byte displacement disp_k. The extent is the one the type
+ * carries (ub_ - lb_, whatever the constructor stored: MPI_LB / MPI_UB markers and alignment padding are not modelled):
+ * copy c lies c stored extents after copy 0. ---- */
+struct Type_Struct g_ts;
+struct Datatype g_o0, g_o1, g_o2; /* the old types of the three blocks */
+struct Datatype* g_olds[SBC];
+#define O_SZ(k) ((k) == 0 ? g_o0.size_ : (k) == 1 ? g_o1.size_ : g_o2.size_)
+#define O_DER(k) (((((unsigned int)((k) == 0 ? g_o0.flags_ : (k) == 1 ? g_o1.flags_ : g_o2.flags_)) & DERIVED) != 0))
+#define SWF_O(o) ((o).flags_ >= 0 && 1 <= (o).size_ && (o).size_ <= SV && 0 <= (o).lb_ && (o).lb_ <= SV && (o).lb_ < (o).ub_ && (o).ub_ <= (o).lb_ + 2 * SV)
+#define TS_BC (g_ts.block_count_)
+#define TS_BSZ(k) ((unsigned long)g_sbl[k] * O_SZ(k))
+#define TS_COPYSZ (TS_BSZ(0) + (1 < TS_BC ? TS_BSZ(1) : 0) + (2 < TS_BC ? TS_BSZ(2) : 0))
+#define TS_PREF(k) (((k) > 0 ? TS_BSZ(0) : 0) + ((k) > 1 ? TS_BSZ(1) : 0))
+#define TS_EXT (g_ts.__b_Datatype.ub_ - g_ts.__b_Datatype.lb_)
+#define TS_PRE                                                                                                         \
+  (vf_exc == 0 && self == &g_ts && g_ts.block_indices_ == g_sdisp && g_ts.block_lengths_ == g_sbl && g_ts.old_types_ == g_olds &&   \
+   g_olds[0] == &g_o0 && g_olds[1] == &g_o1 && g_olds[2] == &g_o2 && 1 <= TS_BC && TS_BC <= SBC && 0 <= count && count <= SCNT &&      \
+   HS_BLK_OK(0) && HS_BLK_OK(1) && HS_BLK_OK(2) && SWF_O(g_o0) && SWF_O(g_o1) && SWF_O(g_o2) && 0 <= g_ts.__b_Datatype.lb_ &&       \
+   g_ts.__b_Datatype.lb_ <= 4 * SDISP && g_ts.__b_Datatype.lb_ <= g_ts.__b_Datatype.ub_ && g_ts.__b_Datatype.ub_ <= 8 * SDISP && LOG_EMPTY)
+#define TS_GHOST                                                                                                       \
+  (0 <= g_c && g_c < count && 0 <= g_k && g_k < TS_BC && g_b < TS_BSZ(g_k) && g_D == (g_c == 1 ? TS_COPYSZ : 0) + TS_PREF(g_k) + g_b)
+#define TS_NCPOS(ext) (g_nc_off + (g_kind == 1 ? g_rel : 0) == (unsigned long)((g_c == 1 ? (ext) : 0) + g_sdisp[g_k]) + (g_kind == 1 ? g_b : 0))
+#define TS_KIND (g_kind == (O_DER(g_k) ? 2 : 1) && (g_kind == 1 || (g_cnt == g_sbl[g_k] && g_rel == g_b)))
+void Type_Struct__serialize(struct Type_Struct* self, void* noncontiguous_buf, void* contiguous_buf, int count)
+    __CPROVER_requires(TS_PRE && noncontiguous_buf == g_nbuf && contiguous_buf == g_cbuf && TS_GHOST)
+    __CPROVER_assigns(LOG_FRAME)
+    __CPROVER_ensures(vf_exc == 0)
+    __CPROVER_ensures(g_hits == 1 && TS_KIND)
+    /*@ struct_serialize_every_packed_byte_is_written_exactly_once_by_the_transfer_of_its_block */
+    __CPROVER_ensures(!g_bad && g_total == (count >= 1 ? TS_COPYSZ : 0) + (count >= 2 ? TS_COPYSZ : 0))
+    /*@ struct_serialize_fills_the_packed_buffer_in_order_without_gaps */
+    __CPROVER_ensures(g_c != 0 || TS_NCPOS(0))
+    /*@ struct_serialize_first_copy_takes_each_block_at_its_displacement */
+    __CPROVER_ensures(TS_NCPOS(TS_EXT))
+    /*@ struct_serialize_copy_c_lies_c_extents_after_copy_0 */;
+void Type_Struct__unserialize(struct Type_Struct* self, void* contiguous_buf, void* noncontiguous_buf, int count, struct Op* op)
+    __CPROVER_requires(TS_PRE && noncontiguous_buf == g_nbuf && contiguous_buf == g_cbuf && op == &g_op && TS_GHOST)
+    __CPROVER_assigns(LOG_FRAME)
+    __CPROVER_ensures(vf_exc == 0)
+    __CPROVER_ensures(g_hits == 1 && TS_KIND)
+    /*@ struct_unserialize_every_packed_byte_is_consumed_exactly_once_by_the_transfer_of_its_block */
+    __CPROVER_ensures(!g_bad && g_total == (count >= 1 ? TS_COPYSZ : 0) + (count >= 2 ? TS_COPYSZ : 0))
+    /*@ struct_unserialize_consumes_the_packed_buffer_in_order_without_gaps */
+    __CPROVER_ensures(g_c != 0 || TS_NCPOS(0))
+    /*@ struct_unserialize_first_copy_puts_each_block_at_its_displacement */
+    __CPROVER_ensures(TS_NCPOS(TS_EXT))
+    /*@ struct_unserialize_copy_c_lies_c_extents_after_copy_0 */;
+
+#define memcpy vf_memcpy_log /* the units' memcpy calls go to the logging stub (the models in gen.h are already parsed) */
 #include "gen.c"
+#undef memcpy
 
 /* ---------------- harnesses ----------------------------------------------------------------------------------------- */
 int nondet_int(void);
@@ -211,4 +440,38 @@ void harness(void) { vf_exc = 0; Datatype__create_indexed(nondet_int(), g_bls, g
 #endif
 #ifdef H_hindexed
 void harness(void) { vf_exc = 0; Datatype__create_hindexed(nondet_int(), g_bls, g_disp, &g_old, &g_out); VF_CANARY_POINT; }
+#endif
+
+/* serialize / unserialize harnesses: everything symbolic within the bounds of the requires clauses */
+static void setup_ser(void)
+{
+  vf_exc               = 0;
+  g_hx.block_indices_  = g_sdisp;
+  g_hx.block_lengths_  = g_sbl;
+  g_hx.old_type_       = &g_old;
+  g_hv.old_type_       = &g_old;
+  g_ts.block_indices_  = g_sdisp;
+  g_ts.block_lengths_  = g_sbl;
+  g_ts.old_types_      = g_olds;
+  g_olds[0]            = &g_o0;
+  g_olds[1]            = &g_o1;
+  g_olds[2]            = &g_o2;
+}
+#ifdef H_hindexed_serialize
+void harness(void) { setup_ser(); Type_Hindexed__serialize(&g_hx, g_nbuf, g_cbuf, nondet_int()); VF_CANARY_POINT; }
+#endif
+#ifdef H_hindexed_unserialize
+void harness(void) { setup_ser(); Type_Hindexed__unserialize(&g_hx, g_cbuf, g_nbuf, nondet_int(), &g_op); VF_CANARY_POINT; }
+#endif
+#ifdef H_hvector_serialize
+void harness(void) { setup_ser(); Type_Hvector__serialize(&g_hv, g_nbuf, g_cbuf, nondet_int()); VF_CANARY_POINT; }
+#endif
+#ifdef H_hvector_unserialize
+void harness(void) { setup_ser(); Type_Hvector__unserialize(&g_hv, g_cbuf, g_nbuf, nondet_int(), &g_op); VF_CANARY_POINT; }
+#endif
+#ifdef H_struct_serialize
+void harness(void) { setup_ser(); Type_Struct__serialize(&g_ts, g_nbuf, g_cbuf, nondet_int()); VF_CANARY_POINT; }
+#endif
+#ifdef H_struct_unserialize
+void harness(void) { setup_ser(); Type_Struct__unserialize(&g_ts, g_cbuf, g_nbuf, nondet_int(), &g_op); VF_CANARY_POINT; }
 #endif
